@@ -90,6 +90,20 @@ def gen_assembly(rng: random.Random, max_blocks: int, jitter: bool = True) -> di
         else:
             jit[v] = [0.0, 0.0, 0.0]
     scale = [rng.choice([0.5, 1.0, 2.0, 3.0]) for _ in range(3)]
+    shear = []
+    if rng.random() < 0.15:
+        # strongly sheared cells (a swept / skewed channel): long in one direction, that direction displaced along a
+        # second (sometimes also the third) one by most of a cell length per cell height — interior angles down to ~15
+        # degrees, one body diagonal of every cell much shorter than its edges in the long direction
+        dl = rng.randrange(3)
+        others = [d for d in range(3) if d != dl]
+        rng.shuffle(others)
+        scale = [rng.choice([0.5, 1.0]) for _ in range(3)]
+        scale[dl] = rng.choice([3.0, 4.0, 5.0])
+        for ds in others[: rng.choice([1, 1, 2])]:
+            shear.append([dl, ds, rng.choice([-1, 1]) * rng.choice([0.6, 0.75, 0.9]) * scale[dl] / scale[ds]])
+        for v in jit:
+            jit[v] = [x / 4 for x in jit[v]]
     blocks = []
     for c in cells:
         blocks.append({"cell": list(c), "rot": rng.randrange(24)})
@@ -98,6 +112,16 @@ def gen_assembly(rng: random.Random, max_blocks: int, jitter: bool = True) -> di
         "jitter": {f"{i},{j},{k}": v for (i, j, k), v in jit.items()},
         "scale": scale,
     }
+    if shear:
+        asm["shear"] = shear
+        # the numbering decides which body diagonal joins corners 0 and 6: often the shortest one
+        for blk in blocks:
+            if rng.random() < 0.7:
+                def diag(r, blk=blk):
+                    cs = block_corners(asm, dict(blk, rot=r))
+                    return math.dist(lattice_point(asm, cs[0]), lattice_point(asm, cs[6]))
+                best = min(diag(r) for r in range(24))
+                blk["rot"] = rng.choice([r for r in range(24) if diag(r) < best * 1.0001])
     add_arcs(rng, asm)
     return asm
 
@@ -127,7 +151,11 @@ def add_arcs(rng: random.Random, asm: dict, prob: float = 0.35) -> None:
 
 def lattice_point(asm: dict, ijk: Tuple[int, int, int]) -> List[float]:
     j = asm["jitter"][f"{ijk[0]},{ijk[1]},{ijk[2]}"]
-    return [(ijk[d] + j[d]) * asm["scale"][d] for d in range(3)]
+    p = [(ijk[d] + j[d]) * asm["scale"][d] for d in range(3)]
+    # an affine shear of the whole lattice (parallelogram / parallelepiped cells): p[dt] += k * p[ds]
+    for dt, ds, k in asm.get("shear", []):
+        p[dt] += k * p[ds]
+    return p
 
 
 def block_corners(asm: dict, blk: dict) -> List[Tuple[int, int, int]]:
@@ -308,6 +336,47 @@ def gen_sandwich(rng: random.Random) -> dict:
     return {"kind": "sandwich", "asm": asm, "chops": chops}
 
 
+def gen_row(rng: random.Random, n: Optional[int] = None) -> dict:
+    """A row of 5..7 cells; every cell has its own chop along the row (those edges are shared with nobody), the two
+    families across the row have one chop each, on cells far apart (usually the two ends), so that the inner cells
+    receive one direction from the left and the other from the right: a sweep over the undefined blocks may copy axes
+    without completing any block.  Random orientation, numbering and insertion order (inner cells often first)."""
+    perm = rng.sample(range(3), 3)
+    n = n or rng.choice([5, 5, 6, 7])
+    cells = []
+    for i in range(n):
+        v = [0, 0, 0]
+        v[perm[0]] = i
+        cells.append(v)
+    order = list(range(n))
+    rng.shuffle(order)
+    if rng.random() < 0.4:
+        order.sort(key=lambda i: abs(i - (n - 1) / 2) + rng.random())  # from the middle outwards
+    blocks = [{"cell": cells[i], "rot": rng.randrange(24)} for i in order]
+    dims = [n if d == perm[0] else 1 for d in range(3)]
+    jit = {}
+    for i in range(dims[0] + 1):
+        for j in range(dims[1] + 1):
+            for k in range(dims[2] + 1):
+                jit[f"{i},{j},{k}"] = [rng.randint(-8, 8) / 64 for _ in range(3)]
+    asm = {"blocks": blocks, "jitter": jit, "scale": [rng.choice([1.0, 2.0]) for _ in range(3)], "arcs": []}
+    fam_of, members = families(asm)
+    far = rng.random() < 0.8
+    ends = {perm[1]: 0, perm[2]: n - 1} if rng.random() < 0.5 else {perm[1]: n - 1, perm[2]: 0}
+    chops = []
+    for f, mem in members.items():
+        if len(mem) == 1:
+            b, a = mem[0]
+            calls = gen_chop(rng, ["count", "count_c2c", "count_total"])
+        else:
+            d = axis_direction(blocks[mem[0][0]]["rot"], mem[0][1])[0]
+            want = ends.get(d, 0) if far else rng.randrange(n)
+            b, a = next((b, a) for b, a in mem if blocks[b]["cell"][perm[0]] == want)
+            calls = gen_chop(rng, ["count", "count_c2c", "count_total", "start_c2c"])
+        chops.append({"block": b, "axis": a, "calls": calls})
+    return {"kind": "row", "asm": asm, "chops": chops}
+
+
 def gen_full(rng: random.Random, max_blocks: int) -> dict:
     """Every block chops every axis itself (nothing is left to propagation): per family one chop, applied to each
     member in the same geometric direction; with some probability one member deviates in its count."""
@@ -460,6 +529,8 @@ def gen_case(rng: random.Random, max_blocks: int, mode: str) -> dict:
         return gen_sandwich(rng)
     if mode == "full":
         return gen_full(rng, max_blocks)
+    if mode == "row":
+        return gen_row(rng)
     if mode == "edge_conflict":
         return gen_edge_conflict(rng)
     if mode == "pair_conflict":
